@@ -217,3 +217,15 @@ package services
 //@   loop 1 invariant all: 0 <= $idx(1) && $idx(1) <= len(list.Items) && calls(TrackPod) == $idx(1)
 //@   lemma every: result.1 == nil ==> calls(TrackPod) == len(list.Items)
 //@ end
+
+// ---------------------------------------------------------------------------
+// C15 — a secret whose key does not match its certificate is refused (the host
+// then falls back to the default certificate); nothing is written before the
+// pair was checked
+//@ count KeyPair = tls.X509KeyPair
+//@ func (*SSL).buildCertFromCrtAndKey
+//@   props C15
+//@   ensures paired: result.1 == nil ==> calls(KeyPair) == 1 && last(KeyPair).1 == nil
+//@   at call X509KeyPair#1 assert args: $arg0 == crt && $arg1 == key
+//@   at call WriteFile#1 assert checked: calls(KeyPair) == 1 && last(KeyPair).1 == nil
+//@ end
